@@ -142,7 +142,19 @@ theorem sound_hook {s s' : State} {src : String} {c : Nat} {rcv : String} {amoun
   · exact h
   · exact sound_mint h _ _ _
 
-theorem sound_step (s s' : State) (op : Op) (h : Sound s.bank) (hs : step s op = .ok s') : Sound s'.bank := by
+theorem sound_mintH {s s' : State} {owner rcv denom : String} {amount : Int} (h : Sound s.bank)
+    (hh : handleMint s owner rcv denom amount = .ok s') : Sound s'.bank := by
+  obtain ⟨_, sym, s1, _, h1, h2⟩ := mintH_ok hh
+  obtain ⟨_, _, _, _, _, rfl⟩ := mintChecked_ok h2
+  exact sound_mint (deductFee_sound h h1).1 _ _ _
+
+theorem sound_burnH {s s' : State} {sender denom : String} {amount : Int} (h : Sound s.bank)
+    (hh : handleBurn s sender denom amount = .ok s') : Sound s'.bank := by
+  obtain ⟨_, b, hb, rfl⟩ := burnH_ok hh
+  exact sound_burn h hb
+
+theorem sound_step_core (s s' : State) (op : Op) (hn : norm op = op) (h : Sound s.bank) (hs : step s op = .ok s') :
+    Sound s'.bank := by
   cases op with
   | issue owner symbol name minUnit scale init max mintable =>
     obtain ⟨_, _, s1, h1, _, _, rfl⟩ := issue_ok hs
@@ -150,13 +162,8 @@ theorem sound_step (s s' : State) (op : Op) (h : Sound s.bank) (hs : step s op =
   | edit owner symbol name max mintable =>
     obtain ⟨t, _, _, _, rfl⟩ := edit_ok hs
     exact h
-  | mint owner rcv denom amount =>
-    obtain ⟨_, _, sym, s1, _, h1, h2⟩ := mint_ok hs
-    obtain ⟨_, _, _, _, _, rfl⟩ := mintChecked_ok h2
-    exact sound_mint (deductFee_sound h h1).1 _ _ _
-  | burn sender denom amount =>
-    obtain ⟨_, _, b, hb, rfl⟩ := burn_step_ok hs
-    exact sound_burn h hb
+  | mint owner rcv denom amount => exact sound_mintH h (mint_handle hs).2.2
+  | burn sender denom amount => exact sound_burnH h (burn_handle hs).2.2
   | transferOwner src dst symbol =>
     obtain ⟨_, t, _, _, rfl⟩ := transferOwner_ok hs
     exact h
@@ -182,6 +189,21 @@ theorem sound_step (s s' : State) (op : Op) (h : Sound s.bank) (hs : step s op =
   | updateParams authority p => rw [(updateParams_ok hs).2]; exact h
   | evmTx target logs =>
     exact logs_lift (P := fun x => Sound x.bank) (fun _ _ _ _ _ _ hx hx' => sound_hook hx hx') h (evmTx_ok hs)
+  | legacyIssue _ _ _ _ _ _ _ _ => cases hn
+  | legacyEdit _ _ _ _ _ => cases hn
+  | legacyTransferOwner _ _ _ => cases hn
+  | legacyMint owner rcv symbol amount =>
+    obtain ⟨_, _, t, _, _, _, hh⟩ := legacyMint_ok hs
+    exact sound_mintH h hh
+  | legacyBurn sender symbol amount =>
+    obtain ⟨_, _, t, _, _, _, hh⟩ := legacyBurn_ok hs
+    exact sound_burnH h hh
+  | upgradeErc20 authority impl =>
+    obtain ⟨_, _, _, _, _, rfl⟩ := upgrade_ok hs
+    exact h
+
+theorem sound_step (s s' : State) (op : Op) (h : Sound s.bank) (hs : step s op = .ok s') : Sound s'.bank :=
+  sound_step_core s s' (norm op) (norm_idem op) h (by rw [← step_norm]; exact hs)
 
 theorem sound_run (s : State) (ops : List Op) (h : Sound s.bank) : Sound (run s ops).bank := by
   induction ops generalizing s with
@@ -501,6 +523,12 @@ theorem conversion_step (s s' : State) (op : Op) (hwf : WF s) (hb : Bound s) (hs
   | swapFee _ _ _ _ => cases hop
   | deploy _ _ _ _ _ => cases hop
   | updateParams _ _ => cases hop
+  | legacyIssue _ _ _ _ _ _ _ _ => cases hop
+  | legacyEdit _ _ _ _ _ => cases hop
+  | legacyMint _ _ _ _ => cases hop
+  | legacyBurn _ _ _ => cases hop
+  | legacyTransferOwner _ _ _ => cases hop
+  | upgradeErc20 _ _ => cases hop
 
 /-- **C10(7a)** the target of an EVM transaction plays no role in the hook: the token credited by a
 `SwapToNative` log is decided by the contract that **emitted** the log -/
@@ -713,8 +741,22 @@ theorem boundinv_deploy {s s' : State} {t : Token} (h : BoundInv s) (hwf' : WF s
     · simp only [hk, if_false] at hcs
       exact h.pos c sym2 hcs
 
-/-- **C10(8a)** every accepted operation of the module keeps the binding invariant -/
-theorem boundinv_step (s s' : State) (op : Op) (h : BoundInv s) (hs : step s op = .ok s') : BoundInv s' := by
+theorem frame_mintH {s s' : State} {owner rcv denom : String} {amount : Int}
+    (hh : handleMint s owner rcv denom amount = .ok s') :
+    s'.tokens = s.tokens ∧ s'.contracts = s.contracts ∧ s'.nonce = s.nonce ∧ s'.evm = s.evm ∧ s'.impl = s.impl := by
+  obtain ⟨_, sym, s1, _, h1, h2⟩ := mintH_ok hh
+  obtain ⟨_, _, _, _, _, _, _, rfl⟩ := deductFee_ok h1
+  obtain ⟨_, _, _, _, _, rfl⟩ := mintChecked_ok h2
+  exact ⟨rfl, rfl, rfl, rfl, rfl⟩
+
+theorem frame_burnH {s s' : State} {sender denom : String} {amount : Int}
+    (hh : handleBurn s sender denom amount = .ok s') :
+    s'.tokens = s.tokens ∧ s'.contracts = s.contracts ∧ s'.nonce = s.nonce ∧ s'.evm = s.evm ∧ s'.impl = s.impl := by
+  obtain ⟨_, b, _, rfl⟩ := burnH_ok hh
+  exact ⟨rfl, rfl, rfl, rfl, rfl⟩
+
+theorem boundinv_step_core (s s' : State) (op : Op) (hn : norm op = op) (h : BoundInv s) (hs : step s op = .ok s') :
+    BoundInv s' := by
   have hwf' := Props.C09.wf_step s s' op h.wf hs
   cases op with
   | issue owner symbol name minUnit scale init max mintable =>
@@ -726,12 +768,25 @@ theorem boundinv_step (s s' : State) (op : Op) (h : BoundInv s) (hs : step s op 
     obtain ⟨t, ht, _, _, rfl⟩ := edit_ok hs
     exact boundinv_modify (t' := edited t name max mintable) h hwf' ht rfl rfl rfl rfl
   | mint owner rcv denom amount =>
-    obtain ⟨_, _, sym, s1, _, h1, h2⟩ := mint_ok hs
-    obtain ⟨_, _, _, _, _, _, _, rfl⟩ := deductFee_ok h1
-    obtain ⟨_, _, _, _, _, rfl⟩ := mintChecked_ok h2
-    exact boundinv_of_same h hwf' rfl rfl rfl
+    obtain ⟨e1, e3, e4, _, _⟩ := frame_mintH (mint_handle hs).2.2
+    exact boundinv_of_same h hwf' e1 e3 e4
   | burn sender denom amount =>
-    obtain ⟨_, _, b, _, rfl⟩ := burn_step_ok hs
+    obtain ⟨e1, e3, e4, _, _⟩ := frame_burnH (burn_handle hs).2.2
+    exact boundinv_of_same h hwf' e1 e3 e4
+  | legacyIssue _ _ _ _ _ _ _ _ => cases hn
+  | legacyEdit _ _ _ _ _ => cases hn
+  | legacyTransferOwner _ _ _ => cases hn
+  | legacyMint owner rcv symbol amount =>
+    obtain ⟨_, _, t, _, _, _, hh⟩ := legacyMint_ok hs
+    obtain ⟨e1, e3, e4, _, _⟩ := frame_mintH hh
+    exact boundinv_of_same h hwf' e1 e3 e4
+  | legacyBurn sender symbol amount =>
+    obtain ⟨_, _, t, _, _, _, hh⟩ := legacyBurn_ok hs
+    obtain ⟨e1, e3, e4, _, _⟩ := frame_burnH hh
+    exact boundinv_of_same h hwf' e1 e3 e4
+  | upgradeErc20 authority impl =>
+    have e := (upgrade_ok hs).2.2.2.2.2
+    subst e
     exact boundinv_of_same h hwf' rfl rfl rfl
   | transferOwner src dst symbol =>
     obtain ⟨_, t, ht, _, rfl⟩ := transferOwner_ok hs
@@ -770,6 +825,11 @@ theorem boundinv_step (s s' : State) (op : Op) (h : BoundInv s) (hs : step s op 
     have f := logs_frame (evmTx_ok hs)
     exact boundinv_of_same h hwf' f.tokens f.contracts f.nonce
 
+/-- **C10(8a)** every accepted operation of the module — both Msg services, conversions, deployment,
+upgrade — keeps the binding invariant -/
+theorem boundinv_step (s s' : State) (op : Op) (h : BoundInv s) (hs : step s op = .ok s') : BoundInv s' :=
+  boundinv_step_core s s' (norm op) (norm_idem op) h (by rw [← step_norm]; exact hs)
+
 theorem boundinv_genesis (bank : Bank) (p : Params) (env : Env) : BoundInv (genesis bank p env) where
   wf := Props.C09.wf_genesis bank p env
   bound := by
@@ -799,5 +859,121 @@ theorem boundinv_run (s : State) (ops : List Op) (h : BoundInv s) : BoundInv (ru
     cases hs : step s op with
     | ok s' => exact boundinv_step s s' op h hs
     | error e => exact h
+
+/-! ### 9. `UpgradeERC20`, and the legacy Msg service on the conversion ledgers -/
+
+/-- **C10(9a)** only the authority upgrades the ERC20 implementation -/
+theorem upgrade_only_authority (s s' : State) (authority impl : String)
+    (hs : step s (.upgradeErc20 authority impl) = .ok s') : authority = GOV :=
+  (upgrade_ok hs).1
+
+/-- … anyone else is rejected and nothing changes -/
+theorem upgrade_by_stranger_rejected (s : State) (sender impl : String) (hne : sender ≠ GOV) :
+    apply s (.upgradeErc20 sender impl) = s := by
+  unfold apply
+  cases hs : step s (.upgradeErc20 sender impl) with
+  | error e => rfl
+  | ok s' => exact absurd (upgrade_only_authority s s' sender impl hs) hne
+
+/-- **C10(9b)** an accepted upgrade changes no ledger: not a balance, not a supply, not an ERC20
+balance, no token, no index, no tally, no parameter — only the beacon's implementation, which becomes
+the (code-carrying) address the message names -/
+theorem upgrade_changes_no_ledger (s s' : State) (authority impl : String)
+    (hs : step s (.upgradeErc20 authority impl) = .ok s') :
+    s' = { s with impl := impl } ∧ s'.bank = s.bank ∧ s'.evm = s.evm ∧ s'.tokens = s.tokens ∧
+    s'.burned = s.burned ∧ hasCode s impl = true ∧
+    (∀ m c, combined s' m c = combined s m c) := by
+  obtain ⟨_, _, _, _, hc, rfl⟩ := upgrade_ok hs
+  exact ⟨rfl, rfl, rfl, rfl, rfl, hc, fun _ _ => rfl⟩
+
+/-- an upgrade needs ERC20 enabled, a configured beacon and an answering EVM; an implementation
+without code makes the beacon revert -/
+theorem upgrade_without_code_rejected (s : State) (authority impl : String) (hc : hasCode s impl = false) :
+    apply s (.upgradeErc20 authority impl) = s := by
+  unfold apply
+  cases hs : step s (.upgradeErc20 authority impl) with
+  | error e => rfl
+  | ok s' =>
+    have := (upgrade_ok hs).2.2.2.2.1
+    rw [hc] at this; cases this
+
+/-- **C10(9c)** the beacon's implementation changes only by an accepted `UpgradeERC20` -/
+theorem impl_changes_only_by_upgrade_core (s s' : State) (op : Op) (hn : norm op = op) (hs : step s op = .ok s')
+    (hop : Spec.C10.isUpgrade op = false) : s'.impl = s.impl := by
+  cases op with
+  | issue owner symbol name minUnit scale init max mintable =>
+    obtain ⟨_, _, s1, h1, _, _, rfl⟩ := issue_ok hs
+    obtain ⟨_, _, _, _, _, _, _, rfl⟩ := deductFee_ok h1
+    rfl
+  | edit owner symbol name max mintable => obtain ⟨t, _, _, _, rfl⟩ := edit_ok hs; rfl
+  | mint owner rcv denom amount => exact (frame_mintH (mint_handle hs).2.2).2.2.2.2
+  | burn sender denom amount => exact (frame_burnH (burn_handle hs).2.2).2.2.2.2
+  | transferOwner src dst symbol => obtain ⟨_, t, _, _, rfl⟩ := transferOwner_ok hs; rfl
+  | swapFee sender rcv denom amount =>
+    obtain ⟨_, tb, target, ratio, tm, b, m, _, _, _, _, h2⟩ := swapFee_ok hs
+    obtain ⟨_, _, _, bk, _, rfl⟩ := swapMoves_ok h2
+    rfl
+  | deploy authority name symbol minUnit scale => obtain ⟨t, _, _, rfl⟩ := deploy_ok hs; rfl
+  | swapToErc20 sender receiver denom amount => obtain ⟨_, _, t, b, _, _, _, rfl⟩ := swapTo_ok hs; rfl
+  | swapFromErc20 sender receiver denom amount => obtain ⟨_, _, _, t, _, _, _, rfl⟩ := swapFrom_ok hs; rfl
+  | hookSwap src c rcv amount => exact (hook_frame (show stepHookSwap s src c rcv amount = .ok s' from hs)).impl
+  | evmFault mode => rw [evmFault_ok hs]
+  | updateParams authority p => rw [(updateParams_ok hs).2]
+  | evmTx target logs => exact (logs_frame (evmTx_ok hs)).impl
+  | legacyIssue _ _ _ _ _ _ _ _ => cases hn
+  | legacyEdit _ _ _ _ _ => cases hn
+  | legacyTransferOwner _ _ _ => cases hn
+  | legacyMint owner rcv symbol amount =>
+    obtain ⟨_, _, t, _, _, _, hh⟩ := legacyMint_ok hs
+    exact (frame_mintH hh).2.2.2.2
+  | legacyBurn sender symbol amount =>
+    obtain ⟨_, _, t, _, _, _, hh⟩ := legacyBurn_ok hs
+    exact (frame_burnH hh).2.2.2.2
+  | upgradeErc20 _ _ => cases hop
+
+theorem isUpgrade_norm (op : Op) : Spec.C10.isUpgrade (norm op) = Spec.C10.isUpgrade op := by cases op <;> rfl
+
+theorem impl_changes_only_by_upgrade (s s' : State) (op : Op) (hs : step s op = .ok s')
+    (hop : Spec.C10.isUpgrade op = false) : s'.impl = s.impl :=
+  impl_changes_only_by_upgrade_core s s' (norm op) (norm_idem op) (by rw [← step_norm]; exact hs)
+    (by rw [isUpgrade_norm]; exact hop)
+
+/-- **C10(9d)** the legacy Msg service never touches the ERC20 ledger, and its mint / burn move the
+native ledger exactly as the v1 msg-server method they call (`Props.C09.legacy_*_refines_v1`) -/
+theorem legacy_leaves_erc20_untouched (s s' : State) (op : Op) (hs : step s op = .ok s')
+    (hop : Spec.C09.isC09Op op = true) : s'.evm = s.evm ∧ s'.contracts = s.contracts ∧ s'.nonce = s.nonce := by
+  have key : ∀ op, norm op = op → Spec.C09.isC09Op op = true → step s op = .ok s' →
+      s'.evm = s.evm ∧ s'.contracts = s.contracts ∧ s'.nonce = s.nonce := by
+    intro op hn hop hs
+    cases op with
+    | issue owner symbol name minUnit scale init max mintable =>
+      obtain ⟨_, _, s1, h1, _, _, rfl⟩ := issue_ok hs
+      obtain ⟨_, _, _, _, _, _, _, rfl⟩ := deductFee_ok h1
+      exact ⟨rfl, rfl, rfl⟩
+    | edit owner symbol name max mintable => obtain ⟨t, _, _, _, rfl⟩ := edit_ok hs; exact ⟨rfl, rfl, rfl⟩
+    | mint owner rcv denom amount =>
+      obtain ⟨_, e3, e4, e5, _⟩ := frame_mintH (mint_handle hs).2.2; exact ⟨e5, e3, e4⟩
+    | burn sender denom amount =>
+      obtain ⟨_, e3, e4, e5, _⟩ := frame_burnH (burn_handle hs).2.2; exact ⟨e5, e3, e4⟩
+    | transferOwner src dst symbol => obtain ⟨_, t, _, _, rfl⟩ := transferOwner_ok hs; exact ⟨rfl, rfl, rfl⟩
+    | legacyMint owner rcv symbol amount =>
+      obtain ⟨_, _, t, _, _, _, hh⟩ := legacyMint_ok hs
+      obtain ⟨_, e3, e4, e5, _⟩ := frame_mintH hh; exact ⟨e5, e3, e4⟩
+    | legacyBurn sender symbol amount =>
+      obtain ⟨_, _, t, _, _, _, hh⟩ := legacyBurn_ok hs
+      obtain ⟨_, e3, e4, e5, _⟩ := frame_burnH hh; exact ⟨e5, e3, e4⟩
+    | legacyIssue _ _ _ _ _ _ _ _ => cases hn
+    | legacyEdit _ _ _ _ _ => cases hn
+    | legacyTransferOwner _ _ _ => cases hn
+    | swapFee _ _ _ _ => cases hop
+    | deploy _ _ _ _ _ => cases hop
+    | swapToErc20 _ _ _ _ => cases hop
+    | swapFromErc20 _ _ _ _ => cases hop
+    | hookSwap _ _ _ _ => cases hop
+    | evmFault _ => cases hop
+    | updateParams _ _ => cases hop
+    | evmTx _ _ => cases hop
+    | upgradeErc20 _ _ => cases hop
+  exact key (norm op) (norm_idem op) (by rw [Props.C09.isC09Op_norm]; exact hop) (by rw [← step_norm]; exact hs)
 
 end Irismod.Props.C10
